@@ -3,6 +3,7 @@ package main
 import (
 	"fmt"
 	"go/ast"
+	"go/types"
 	"strings"
 )
 
@@ -59,6 +60,21 @@ func ruleFamilyFanOut(w *World, r *Report, ruleB, ruleC string) {
 		}
 	}
 	if ruleC == "" {
+		return
+	}
+	// a fan-out that does not search the registry (it iterates the family recorded at
+	// registration) has no lookup identity to get wrong
+	searches := false
+	for _, cif := range w.Within(ci, 3) {
+		for _, c := range callsIn(cif.Decl.Body, true) {
+			if cal := callee(cif.Pkg.TypesInfo, c); w.IsFn(cal, w.Godi, "(*provider).findDescriptor") || w.IsFn(cal, w.Godi, "(*provider).findGroupDescriptors") {
+				searches = true
+			}
+		}
+	}
+	if !searches {
+		r.OK(ruleC, "createInstance#fan-out-lookup:none", ci.Decl.Pos(), false, "the creation chain never searches the registry for the descriptor of an output: outputs are stored under descriptors recorded at registration")
+		r.OK(ruleC, "createInstance#fan-out-lookup:none/2", ci.Decl.Pos(), false, "(no lookup in the multi-return fan-out either)")
 		return
 	}
 	// lookup identity of the two fan-outs
@@ -196,8 +212,54 @@ func ruleCheckThenAct(w *World, r *Report, rule string, la *LockAnalysis) {
 			return true
 		})
 	}
-	r.Check(heldAcross || reread || once, rule, con, fi.Decl.Pos(), true,
-		"the miss test and the fill of the scoped cache are atomic (one critical section, re-read in the fill, or a per-key once)",
+	// (d) leader/follower: a wrapper between resolve and the constructing core re-reads the cache
+	// and claims an in-flight record (another table of the scope) in one critical section
+	inflight := false
+	for _, f := range w.FuncsOf(w.Godi) {
+		if !ro.creators[f.Obj] || f == ro.createInstance {
+			continue
+		}
+		u := la.byFunc[f.Obj]
+		if u == nil {
+			continue
+		}
+		finfo := f.Pkg.TypesInfo
+		var readLocks, claimLocks []string
+		for _, n := range u.flow.Nodes() {
+			held := lockFactsOf(la.HeldAt(n))
+			if len(held) == 0 {
+				continue
+			}
+			ast.Inspect(n, func(x ast.Node) bool {
+				switch e := x.(type) {
+				case *ast.IndexExpr:
+					if fieldOf(finfo, e.X) == ro.cache {
+						readLocks = append(readLocks, held...)
+					}
+				case *ast.AssignStmt:
+					for _, l := range e.Lhs {
+						if ix, ok := unparen(l).(*ast.IndexExpr); ok {
+							if fv := fieldOf(finfo, ix.X); fv != nil && fv != ro.cache && ownerOfField(w, fv) == "scope" {
+								if _, isMap := fv.Type().Underlying().(*types.Map); isMap {
+									claimLocks = append(claimLocks, held...)
+								}
+							}
+						}
+					}
+				}
+				return true
+			})
+		}
+		for _, a := range readLocks {
+			for _, b := range claimLocks {
+				if a == b {
+					inflight = true
+				}
+			}
+		}
+	}
+	r.Check(heldAcross || reread || once || inflight, rule, con, fi.Decl.Pos(), true,
+		"the miss test and the fill of the scoped cache are atomic (one critical section, re-read in the fill, a per-key once, or a leader/follower record claimed together with a re-read of the cache)",
 		"the scoped branch tests the cache, releases the lock, constructs, and fills the cache without re-checking: two goroutines resolving the same scoped service in one scope both miss and both construct, so the scope ends up with two instances")
 }
 
